@@ -142,6 +142,12 @@ pub fn emit(sh: &mut Shards, st: &mut Stats, case: &Case, source: &str) {
     }
     for s in &case.stmts {
         for e in &s.entries {
+            if let Some(d) = chrono::NaiveDate::from_ymd_opt(e.booking.y, e.booking.m, e.booking.d) {
+                st.count(&format!("date:booking:{}", crate::caldate::class_of(d)));
+            }
+            if let Some(d) = e.value.as_ref().and_then(|v| chrono::NaiveDate::from_ymd_opt(v.y, v.m, v.d)) {
+                st.count(&format!("date:value:{}", crate::caldate::class_of(d)));
+            }
             if !e.details.is_empty() {
                 let multi = if e.details.len() >= 2 { "batch of 2+ TxDtls" } else { "single TxDtls" };
                 st.count(&match &e.batch {
